@@ -71,6 +71,13 @@ func runC13(c *Ctx) {
 			exrevs = append(exrevs, kvAny{fmt.Sprintf("AREV%d", i), int64(c.Rng.Intn(5000))})
 			data = append(data, kvAny{fmt.Sprintf("k%d%s", i, []string{"", "Z", "a"}[c.Rng.Intn(3)]), []interface{}{"s", float64(i), map[string]interface{}{"z": 1.0, "a": "b", "m": nil}}[c.Rng.Intn(3)]})
 		}
+		// keys that differ only in letter case are different keys (tier names, mapping sources, data members)
+		if c.Rng.Intn(2) == 0 {
+			tiers = append(tiers, kvAny{"gold", jwt.JetStreamLimits{DiskStorage: 1}}, kvAny{"GOLD", jwt.JetStreamLimits{DiskStorage: 2}}, kvAny{"Gold", jwt.JetStreamLimits{Streams: 3}})
+			maps = append(maps, kvAny{"Case.m", []jwt.WeightedMapping{{Subject: "t.a", Weight: 10}}}, kvAny{"case.m", []jwt.WeightedMapping{{Subject: "t.b", Weight: 20}}})
+			data = append(data, kvAny{"Key", "upper"}, kvAny{"key", "lower"})
+			revs = append(revs, kvAny{"uabc", int64(1100)}, kvAny{"UABC", int64(1200)})
+		}
 		// a revoke-all entry among the per-key ones, some of them older, some newer: the order in which
 		// revocations are entered is not content
 		if c.Rng.Intn(2) == 0 {
